@@ -380,7 +380,7 @@ impl World {
                         let mut want_deps: Vec<ChangeHash> = if f[6] == "-" { vec![] } else { f[6].split(',').map(parse_hash).collect() };
                         let mut deps = deps; deps.sort(); want_deps.sort();
                         if h == want && deps == want_deps { res.push(format!("e {} ok {}", p, show_doc(&self.docs[p]))); }
-                        else { res.push(format!("e {} hash-mismatch", p)); }
+                        else { res.push(format!("e {} hash-mismatch got={} deps={}", p, hex::encode(h.as_ref()), if deps.is_empty() { "-".to_string() } else { deps.iter().map(|d| hex::encode(d.as_ref())).collect::<Vec<_>>().join(",") })); }
                     }
                     None => res.push(format!("e {} err", p)),
                 }
@@ -470,7 +470,9 @@ pub fn exec(sess: &mut SyncSession, toks: &[&str]) -> Vec<String> {
 pub fn generate(r: &mut Rng, opts: &BTreeMap<String, String>, sess: &mut Session, out: &mut Out) {
     let n = match r.below(10) { 0..=4 => 2usize, 5..=7 => 3, _ => 4 };
     let fp_pct = *r.pick(&[0u64, 5, 50]);
-    let with_loss = r.chance(15, 100);
+    // losing a document is outside the fault model of C21 (drops, message loss, fresh/persisted
+    // reconnects); it is opt-in (`--loss 1`) and reaches the reset-message branch
+    let with_loss = r.chance(15, 100) && opts.get("loss").map(|s| s == "1").unwrap_or(false);
     let with_ro = r.chance(40, 100);
     let with_legacy = r.chance(12, 100);
     let main_steps = opts.get("steps").map(|s| s.parse::<u64>().unwrap()).unwrap_or_else(|| r.range(10, 90));
